@@ -14,9 +14,9 @@ CHUNK = 8
 # ----------------------------------------------------------------------------- programs (user functions of (y, x))
 
 AFFINE = [(a, b, c) for a in (-1, 0, 2) for b in (-1, 0, 2) for c in (-1, 0, 2)]  # includes the constants -1, 0, 2
-NONLIN = ["yx", "absx", "gauss", "gaussn", "relux", "relud", "negq", "negg", "sincos", "peak", "rad"]
+NONLIN = ["yx", "absx", "gauss", "gaussn", "relux", "relud", "negq", "negg", "sincos", "peak", "rad", "indic", "quant"]
 PROGRAMS = ["aff:%d:%d:%d" % t for t in AFFINE] + NONLIN
-N_PROGRAMS = len(PROGRAMS)  # 38
+N_PROGRAMS = len(PROGRAMS)  # 40
 
 # programs run through the iterative scheme: constants (0 => all-zero early return), positive / sign-changing affine,
 # sign change, kink, smooth profiles, exact zeros on a half plane, negative-valued, strongly peaked
@@ -118,6 +118,12 @@ def feval(name, y, x, p):
         return 1.0 / (0.1 + y * y + x * x)
     if name == "rad":
         return np.sqrt(y * y + x * x)
+    # integer / boolean valued programs (the binned value is still the arithmetic mean). Their jumps sit on curves no sub-pixel
+    # centre of the enumerated geometries comes within 1e-6 of (irrational offsets), so 1e-16 position noise cannot flip them.
+    if name == "indic":
+        return (np.sqrt((y - 0.0123) ** 2 + (x + 0.0271) ** 2) < 1.03719).astype(int)
+    if name == "quant":
+        return np.floor(1.7 * y - 0.9 * x + 0.31337).astype(int)
     raise KeyError(name)
 
 
@@ -451,6 +457,20 @@ def run_F(aa, v, m, g, gi, seed, t):
     v.outcome = "F:%s:n%d:p%d" % ("light" if light else "full", n, N_PROGRAMS)
     fully_unmasked = not m.any()
     state = {}
+    # one over-sampling OBJECT used for two grids that share the mask pattern but not the geometry (second use must not be stale)
+    g2 = (sy * 1.5 + 0.25, sx * 0.5 + 0.125, oy - 0.75, ox + 1.5)
+    mask2 = _mk_mask(aa, m, g2)
+    shared = aa.OverSamplingUniform(sub_size=2)
+    for gg, mk in ((g, mask), (g2, mask2), (g, mask)):
+        ptsS, ownerS = ref.sub_grid(m, gg[0], gg[1], gg[2], gg[3], [2] * n)
+        grS = aa.Grid2D.from_mask(mask=mk, over_sampling=shared)
+        for name in ("aff:2:-1:2", "gauss"):
+            wantS = ref.bin_mean(feval(name, ptsS[:, 0], ptsS[:, 1], par), ownerS, n)
+            gotS = P(name, par).bare_obj(grS)
+            v.ok(_close(_a(gotS), wantS, max(1.0, float(np.abs(wantS).max()))), "decorator:binned:shared-over-sampling-object",
+                 lambda: "f=%s geometry %s with an OverSamplingUniform object already used on another geometry: got %s want %s" % (name, gg, _a(gotS).tolist(), wantS.tolist()))
+        v.ok(np.all(np.abs(_a(grS.over_sampler.over_sampled_grid) - ptsS) <= 1e-12 * (cscale + abs(gg[2]) + abs(gg[3]) + gg[0] + gg[1])),
+             "over_sampled_grid:shared-over-sampling-object", lambda: "geometry %s" % (gg,))
     for tag, smap, int_form in maps:
         pts, owner = ref.sub_grid(m, sy, sx, oy, ox, smap)
         os_ = _sampler(aa, mask, smap, int_form)
